@@ -2267,7 +2267,7 @@ class Head(Expr):
         if isinstance(self.frame, Elemwise):
             operands = [
                 (
-                    Head(op, self.n, self.npartitions)
+                    Head(op, self.n, self.operand("npartitions"))
                     if isinstance(op, Expr) and not self.frame._broadcast_dep(op)
                     else op
                 )
@@ -2275,7 +2275,11 @@ class Head(Expr):
             ]
             return type(self.frame)(*operands)
         if isinstance(self.frame, Head):
-            return Head(self.frame.frame, min(self.n, self.frame.n), self.npartitions)
+            return Head(
+                self.frame.frame,
+                min(self.n, self.frame.n),
+                self.operand("npartitions"),
+            )
 
     def _simplify_up(self, parent, dependents):
         from dask_expr import Repartition
